@@ -201,6 +201,10 @@ func genC20(t *rapid.T) c20Case {
 	}
 	c.OutKind = rapid.SampledFrom([]string{"default", "relative", "nested", "absolute", "preexisting", "dotdot"}).Draw(t, "outkind")
 	c.OutName = rapid.StringMatching(`[a-zA-Z0-9_]{1,8}`).Draw(t, "outname")
+	if rapid.IntRange(0, 2).Draw(t, "odd_name") == 0 {
+		// directory names are data, not syntax: spaces, percent signs, dots, dashes, non-ASCII
+		c.OutName = rapid.StringMatching(`[a-zA-Z0-9_]{1,3}[ %.\-+=,@#~é中]{1,2}[a-zA-Z0-9%]{0,4}`).Draw(t, "outname")
+	}
 	if rapid.IntRange(0, 3).Draw(t, "history") == 0 {
 		c.PrevS = rapid.IntRange(1, 12).Draw(t, "prev_s")
 		c.PrevN = 8 * rapid.IntRange(1, 20000).Draw(t, "prev_nbytes")
